@@ -8,12 +8,14 @@ use vh_lite::{rows_json, Driven, Value};
 
 use vh_lite::{read_cases, drive, drive_group, quiet_panics, Out};
 
+mod trrel_uf_order__ser;
 mod trrel_uf_bin__ser;
 mod trrel_uf_tern__ser;
 mod trrel_uf_plain__ser;
 
 fn lookup(name: &str) -> fn() -> Box<dyn Driven> {
    match name {
+      "trrel_uf_order__ser" => trrel_uf_order__ser::make,
       "trrel_uf_bin__ser" => trrel_uf_bin__ser::make,
       "trrel_uf_tern__ser" => trrel_uf_tern__ser::make,
       "trrel_uf_plain__ser" => trrel_uf_plain__ser::make,
